@@ -87,7 +87,9 @@ def build(D, res="main", mc=1):
         if sa == k:
             parts.append("p")
         lines.append(f"    v{k} = X[{k}]({', '.join(parts)})")
-    ret = ", ".join(f"v{k}" for k in range(1, D["n"] + 1))
+    # some return positions are an indexed usage of the node's result (("v", k)[1] == k): an unexecuted node reads as None there too
+    idx = D.get("idxret") or []
+    ret = ", ".join((f"v{k}[1]" if k in idx else f"v{k}") for k in range(1, D["n"] + 1))
     src = f"def describe({'p=1' if sa else ''}):\n" + "\n".join(lines) + f"\n    return ({ret},)\n"
     env = {"X": xs}
     exec(compile(src, "<e3>", "exec"), env)  # noqa: S102
@@ -168,7 +170,7 @@ def observe(D, base, ids, xs, mode, pre, R, X, T, bogus, flag, rng, forms):
                     if v is None:
                         continue
                     ret |= 1 << (k - 1)
-                    if v != ("v", k):
+                    if v != (k if k in (D.get("idxret") or []) else ("v", k)):
                         bad |= 1 << (k - 1)
         except ValueError:
             err = 1
@@ -207,7 +209,7 @@ def selections(D, rng, limit):
 def run_dag(D, rng, limit, forms=("id", "ref", "tag", "grp")):
     """All observations for one DAG description; returns the JSON record for SelCheck."""
     rec = {"n": D["n"], "deps": D["deps"], "kind": D["kind"], "const": D["const"], "tags": D.get("tags", {}),
-           "obs": [], "als": [], "built": True, "setuparg": D.get("setuparg", 0),
+           "obs": [], "als": [], "built": True, "setuparg": D.get("setuparg", 0), "idxret": D.get("idxret") or [],
            "tagseq": [D.get("tags", {}).get(str(k), []) for k in range(1, D["n"] + 1)]}
     try:
         base, ids, xs = build(D, res=D.get("res", "main"), mc=D.get("mc", 1))
@@ -265,6 +267,8 @@ def dag_space(n, rng, const_mode="sample", with_illegal=True):
                     a, b = rng.sample(range(1, n + 1), 2)
                     tags[str(b)].append(f"f{a}")     # a tag equal to another node's id: the tag wins
                 D2["tags"] = tags
+                if rng.random() < 0.4:
+                    D2["idxret"] = [k for k in range(1, n + 1) if rng.random() < 0.5]
                 if rng.random() < 0.15:
                     D2["res"], D2["mc"] = "thread", 2
                 out.append(D2)
